@@ -1781,6 +1781,37 @@ def pattern_methods(rng):
             add("PD", "I", P2, body, "throw:div-or-rem", name)
         else:
             add("PD", "I", P2, body, "decl:" + alias.get(name, name), name)
+    # ---- PD/prop: a single-use temporary x1 = f(x0) whose use comes after a (conditional) reassignment of x0: the decompiler may substitute
+    # f(x0) for x1 only if NO path from the definition to the use reassigns x0 (dataflow.clear_path)
+    small = ("assign", "x0", ("bin", "and", "I", ("var", "p0"), 7, "lit8"))
+    TT = ("assign", "x1", ("bin", "add", "I", x0, 3, "lit8"))
+    dbl = ("assign", "x0", ("bin", "mul", "I", x0, 2, "lit8"))
+    dec = ("assign", "x0", ("bin", "add", "I", x0, -1, "lit8"))
+    addk = ("assign", "x0", ("bin", "add", "I", x0, ("var", "k0"), "3reg"))
+    use = ("return", ("bin", "xor", "I", ("var", "x1"), x0, "3reg"))
+    c2 = ("cmp", "gt", "I", ("var", "p1"), _c(0), True)
+    prop = {
+        "if-without-else-reassigns-operand": [small, TT, ("if", c1, [dbl], []), use],
+        "if-else-both-reassign-operand": [small, TT, ("if", c1, [dbl], [dec]), use],
+        "if-else-one-branch-reassigns-operand": [small, TT, ("if", c1, [_acc()], [dec]), use],
+        "nested-if-reassigns-operand": [small, TT, ("if", c1, [("if", c2, [dbl], [])], []), use],
+        "two-ifs-second-reassigns-operand": [small, TT, ("if", c1, [_acc()], []), ("if", c2, [dbl], []), use],
+        "if-reassigns-operand-use-in-condition": [small, TT, ("if", c1, [dbl], []), ("if", ("cmp", "lt", "I", ("var", "x1"), x0, False), [("return", _c(1))], []), ("return", _c(2))],
+        "loop-header-uses-temp-body-reassigns-operand": [small, TT, k0, ("while", ("cmp", "lt", "I", ("var", "k0"), ("var", "x1"), False), [dec, inc], "top"), ("return", x0)],
+        "loop-header-bottom-uses-temp-body-reassigns-operand": [small, TT, k0, ("while", ("cmp", "lt", "I", ("var", "k0"), ("var", "x1"), False), [dec, inc], "bottom"), ("return", x0)],
+        "loop-body-reassigns-operand-use-after-loop": [small, TT, k0, ("while", lc, [addk, inc], "top"), use],
+        "do-while-body-reassigns-operand-use-after-loop": [small, TT, k0, ("dowhile", [addk, inc], lc), use],
+        "do-while-condition-uses-temp-body-reassigns-operand": [small, TT, k0, ("dowhile", [dec, inc], ("cmp", "lt", "I", ("var", "k0"), ("var", "x1"), False)), ("return", x0)],
+        "loop-body-reassigns-operand-then-uses-temp": [small, TT, k0, ("while", lc, [addk, ("assign", "x0", ("bin", "xor", "I", x0, ("var", "x1"), "3reg")), inc], "top"), ("return", x0)],
+        "loop-body-uses-temp-then-reassigns-operand-in-next-block": [small, TT, k0, ("while", lc, [("if", ("cmp", "lt", "I", ("var", "x1"), ("var", "p1"), False), [_acc()], []), dec, inc], "top"), ("return", x0)],
+        "switch-arm-reassigns-operand": [small, TT, ("switch", ("bin", "and", "I", ("var", "p1"), 3, "lit8"), [([0], [dbl], False), ([1], [dec], False)], None, "packed"), use],
+        "switch-arm-falls-through-reassigns-operand": [small, TT, ("switch", ("bin", "and", "I", ("var", "p1"), 3, "lit8"), [([0], [dbl], True), ([1], [dec], False)], [_acc()], "sparse"), use],
+        "loop-body-uses-temp-and-reassigns-operand-in-one-statement": [small, TT, k0, ("while", lc, [("assign", "x0", ("bin", "add", "I", ("var", "x1"), ("var", "k0"), "3reg")), inc], "top"), ("return", x0)],
+        "loop-body-uses-temp-then-reassigns-operand": [small, TT, ("assign", "k1", _c(0)), k0, ("while", lc, [("assign", "k1", ("bin", "add", "I", ("var", "k1"), ("var", "x1"), "3reg")), dec, inc], "top"),
+                                                       ("return", ("bin", "xor", "I", ("var", "k1"), x0, "3reg"))],
+    }
+    for name, body in prop.items():
+        add("PD", "I", P2, body, "prop:temp-used-after-" + name, name)
     for cast in ("int-to-byte", "int-to-char", "int-to-short"):
         N = ("assign", "x1", ("un", cast, ("var", "p0")))
         W_ = ("assign", "x1", ("bin", "add", "I", ("var", "p0"), ("var", "p1"), "3reg"))
